@@ -76,7 +76,17 @@ func grpOf(d int) string {
 }
 
 func doc(d int) env.Doc {
-	return env.Doc{MID: midOf(d), RID: uint64(100 + d), Tok: map[string][]string{"k": {fmt.Sprintf("d%d", d)}, "g": {grpOf(d)}},
+	// documents carry different numbers of tokens (a repeat dropped in front of a new document must
+	// not shift the new document's tokens)
+	var xs []string
+	for i := 0; i < (d*2)%5; i++ {
+		xs = append(xs, fmt.Sprintf("x%d_%d", d, i))
+	}
+	tok := map[string][]string{"k": {fmt.Sprintf("d%d", d)}, "g": {grpOf(d)}}
+	if len(xs) > 0 {
+		tok["x"] = xs
+	}
+	return env.Doc{MID: midOf(d), RID: uint64(100 + d), Tok: tok,
 		Body: fmt.Sprintf(`{"doc":%d,"payload":"%s"}`, d, strings.Repeat("x", d*3))}
 }
 
